@@ -152,7 +152,7 @@ let handle line =
       let m = { m_required = bool_of_tok req; m_dflt = df; m_type_null = bool_of_tok tn; m_nullable_kw = bool_of_tok nk; m_constr = bool_of_tok c } in
       let o = { o_strict = bool_of_tok strict; o_force = bool_of_tok force; o_usedef = bool_of_tok usedef; o_sdn = bool_of_tok sdn;
                 o_ua = bool_of_tok ua; o_fc = bool_of_tok fc; o_udk = bool_of_tok udk } in
-      string_of_int (int_of_n (key (flags_of kd m o))) ^ "\t" ^ (if guard kd m o then "1" else "0")
+      string_of_int (int_of_n (cell_key (flags_of kd m o))) ^ "\t" ^ (if guard kd m o then "1" else "0")
   | ["meaning"; k; opt; notreq; e] ->
       let kd = (match k with "0" -> KV1 | "1" -> KV2 | "2" -> KDC | "3" -> KTD | _ -> KMS) in
       let ef = (match e with "none" -> ENone | "ellipsis" -> EEllipsis | "None" -> ENoneV | "value" -> EValue | _ -> EFactory) in
@@ -180,6 +180,21 @@ let handle line =
       let (t, _) = parse_dt (String.split_on_char ' ' (String.concat " " rest)) in
       let (h, opt) = th o t in
       tok_of_str (show o h) ^ "\t" ^ (if opt then "1" else "0")
+  | ["imports"; ops] ->
+      (* ops separated by | ; each: a/r : from-or-~ : name : alias-or-~ *)
+      let mk t = (match String.split_on_char ':' t with
+                  | [k; f; n; al] ->
+                      let i = { i_from = (if f = "~" then None else Some (str_of_tok f)); i_name = str_of_tok n;
+                                i_alias = (if al = "~" then None else Some (str_of_tok al)) } in
+                      if k = "a" then Append i else Remove i
+                  | _ -> failwith "op") in
+      let l = (if ops = "" then [] else List.map mk (String.split_on_char '|' ops)) in
+      let s = run l empty in
+      (if ops_ok empty l then "1" else "0") ^ "\t" ^
+      String.concat "|" (List.map (fun (k, names) ->
+          (match k with None -> "~" | Some f -> tok_of_str f) ^ ":" ^
+          String.concat ";" (List.map (fun (n, al) -> tok_of_str n ^ "=" ^ (match al with None -> "~" | Some a -> tok_of_str a)) names))
+        (dump_lines s))
   | ["c2s"; s] -> tok_of_str (camel_to_snake u0 (str_of_tok s))
   | ["s2uc"; d; s] -> tok_of_str (s2uc u0 (n_of_int (int_of_string d)) (str_of_tok s))
   | _ -> "BADREQ"
